@@ -11,7 +11,7 @@ from ..src import unparse
 from ..symex import opaque_atom
 
 LEVEL = "other"
-TECHNIQUE = "registry sibling lint + symbolic agreement of the trial-side integrand of the regular assemblers with the potential kernels + call-site provenance of the grids_identical gates"
+TECHNIQUE = "registry sibling lint + symbolic agreement of the trial-side integrand of the regular assemblers with the potential kernels + call-site provenance of the grids_identical gates (both worlds interpreted); abstract execution of the parameter resolution and of the wavenumber dispatch; package-wide argument-forwarding lint"
 LEVEL_TEXT = (
     "Decides that the boundary (mode 'regular') and potential (mode 'potential') paths evaluate one and the same "
     "Green's-function object per kernel type, that the trial-side factor of every regular assembler equals the "
